@@ -178,6 +178,7 @@ fn strategy() -> BoxedStrategy<C02Case> {
 		replace_action_at: 0,
 		throttle_change: None,
 		empty_errs: false,
+		throttle_via_field: false,
 	};
 	let t_big = prop_oneof![Just(100u32), Just(160), Just(240), Just(300)];
 	prop_oneof![
@@ -218,12 +219,14 @@ fn strategy() -> BoxedStrategy<C02Case> {
 		2 => (prop_oneof![Just((300u32, 60u32)), Just((60, 300)), Just((0, 200)), Just((200, 0))], 10u16..50).prop_map(move |((a, b2), at)| {
 			let mut sc = base(a, vec![pass(30), pass(20), pass(400), pass(10)]);
 			sc.throttle_change = Some((30 + at, b2));
+			sc.throttle_via_field = at % 2 == 0;
 			C02Case { pattern: "throttle-change".into(), sc }
 		}),
 		// throttle changed while idle, then a burst
 		1 => prop_oneof![Just((20u32, 300u32)), Just((300, 20))].prop_map(move |(a, b2)| {
 			let mut sc = base(a, vec![pass(5), pass(500), pass(30)]);
 			sc.throttle_change = Some((250, b2));
+			sc.throttle_via_field = a < b2;
 			C02Case { pattern: "throttle-change".into(), sc }
 		}),
 		// mixed priorities and handler durations on top of the C01 generator (lower bound only)
@@ -587,7 +590,7 @@ pub fn check(e: &Engine) {
 		LegOpts::realtime(
 			e.tier.pick(500, 10_000),
 			48,
-			"arrival patterns: single, burst inside the window, straddling its end, continuous accepted stream (3T), continuous rejected/erroring stream (6T) after one accepted event, urgent inside a 0.6-2 s window, zero throttle, throttle changed inside a window or while idle, mixed priorities with slow handlers; non-trivial = multi-member batch or one of the structured patterns",
+			"arrival patterns: single, burst inside the window, straddling its end, continuous accepted stream (3T), continuous rejected/erroring stream (6T) after one accepted event, urgent inside a 0.6-2 s window, zero throttle, throttle changed inside a window or while idle (through Config::throttle or, half of the time, through the public field without a change signal), mixed priorities with slow handlers; non-trivial = multi-member batch or one of the structured patterns",
 		),
 		&strategy,
 		&run,
